@@ -3,6 +3,7 @@ package main
 // Symbolic values and the heap.
 
 import (
+	"os"
 	"fmt"
 	"go/types"
 	"math/big"
@@ -127,7 +128,7 @@ func (st *State) clone() *State {
 	n.trace = append([]string{}, st.trace...)
 	n.events = append([]string{}, st.events...)
 	if st.bnd != nil {
-		n.bnd = &boundCtx{lo: map[string]*big.Int{}, hi: map[string]*big.Int{}}
+		n.bnd = &boundCtx{lo: map[string]*big.Int{}, hi: map[string]*big.Int{}, lin: append([]*Term{}, st.bnd.lin...)}
 		for k, v := range st.bnd.lo {
 			n.bnd.lo[k] = v
 		}
@@ -186,6 +187,33 @@ func (st *State) recordBound(t *Term) {
 		curBounds = st.bnd
 	}
 	one := big.NewInt(1)
+	addLin := func(e *Term) {
+		if e.IsInt() {
+			return
+		}
+		if st.bnd == nil {
+			st.bnd = &boundCtx{lo: map[string]*big.Int{}, hi: map[string]*big.Int{}}
+		}
+		st.bnd.lin = append(st.bnd.lin, e)
+		curBounds = st.bnd
+	}
+	switch t.Op {
+	case "<=":
+		addLin(Sub(t.Args[1], t.Args[0]))
+	case "<":
+		addLin(Sub(Sub(t.Args[1], t.Args[0]), Int(1)))
+	case "not":
+		if x := t.Args[0]; x.Op == "<=" {
+			addLin(Sub(Sub(x.Args[0], x.Args[1]), Int(1)))
+		} else if x.Op == "<" {
+			addLin(Sub(x.Args[0], x.Args[1]))
+		}
+	case "=":
+		if t.Args[0].Sort.Name == "Int" && !t.Args[0].IsInt() && !t.Args[1].IsInt() {
+			addLin(Sub(t.Args[1], t.Args[0]))
+			addLin(Sub(t.Args[0], t.Args[1]))
+		}
+	}
 	switch t.Op {
 	case "<=":
 		a, b := t.Args[0], t.Args[1]
@@ -1046,4 +1074,57 @@ func (st *State) canon(v Value) Value {
 		}
 	}
 	return v
+}
+
+// renormPC: the path condition rewritten with everything learnt by the end of the path. Entries that
+// are themselves the source of a definition or truth value are kept verbatim (they carry the fact).
+func (st *State) renormPC() []*Term {
+	curBounds = st.bnd
+	out := make([]*Term, 0, len(st.pc))
+	seen := map[string]bool{}
+	for _, t := range st.pc {
+		k := t.String()
+		keep := false
+		if _, ok := st.defs[k]; ok {
+			keep = true
+		}
+		if t.Op == "not" {
+			if _, ok := st.defs[t.Args[0].String()]; ok {
+				keep = true
+			}
+		}
+		if t.Op == "=" {
+			if _, ok := st.defs[t.Args[0].String()]; ok {
+				keep = true
+			}
+			if _, ok := st.defs[t.Args[1].String()]; ok {
+				keep = true
+			}
+		}
+		n := t
+		if keep && (t.Op == "=>" || t.Op == "or" || t.Op == "ite") {
+			// compound fact: simplify its parts, but not the fact as a whole by itself
+			saved, had := st.defs[k]
+			delete(st.defs, k)
+			n = st.norm(t)
+			if had {
+				st.defs[k] = saved
+			}
+		} else if !keep {
+			n = st.norm(t)
+		}
+		if os.Getenv("GOVC_DEBUG") != "" && strings.Contains(k, "(str.substr (str.substr (str.substr") {
+			fmt.Fprintf(os.Stderr, "renorm keep=%v changed=%v len %d -> %d lin=%d\n", keep, n.String() != k, len(k), len(n.String()), len(st.bnd.lin))
+		}
+		if n.IsTrue() || seen[n.String()] {
+			continue
+		}
+		seen[n.String()] = true
+		if n.Op == "and" {
+			out = append(out, n.Args...)
+		} else {
+			out = append(out, n)
+		}
+	}
+	return out
 }
